@@ -177,10 +177,10 @@ ALL_MSGS = ["nil", "empty", "b1", "text", "b64", "b4096"]
 
 
 def dss_consts(n, tset=None, maxbad=2, kinds=ALL_BAD, badfrom=None, joint=False, parts=(), focus=None, selfrecv=True, L=0,
-               emit="none", msgs=("text",)):
+               emit="none", msgs=("text",), gap=0):
     return {"N": n, "TSet": list(tset or range(1, n + 1)), "MaxBad": maxbad, "BadKinds": list(kinds),
             "BadFrom": list(badfrom if badfrom is not None else range(n)), "Joint": joint, "JointParts": list(parts),
-            "FocusSet": list(focus if focus is not None else range(n)), "MsgSet": list(msgs), "SelfRecv": selfrecv, "L": L,
+            "FocusSet": list(focus if focus is not None else range(n)), "MsgSet": list(msgs), "Gap": gap, "SelfRecv": selfrecv, "L": L,
             "EmitMode": emit}
 
 
@@ -196,11 +196,11 @@ def dss_mc(name, n, parts, maxbad=2):
 
 
 def dss_gen(name, n, maxper, mode="paths", maxbad=1, badfrom=None, simulate=None, L=40, tset=None, focus=None,
-            msgs=("text",), kinds=ALL_BAD):
+            msgs=("text",), kinds=ALL_BAD, gap=0):
     """behaviours of ONE participant's object: mode paths = every maximal behaviour, tour = transition tour, walk = simulate"""
     def job(ctx):
         out = os.path.join(ctx.tmp, name + ".ndjson")
-        consts = dss_consts(n, tset=tset, maxbad=maxbad, badfrom=badfrom, focus=focus, L=L, msgs=msgs, kinds=kinds,
+        consts = dss_consts(n, tset=tset, maxbad=maxbad, badfrom=badfrom, focus=focus, L=L, msgs=msgs, kinds=kinds, gap=gap,
                             emit="none" if mode == "tour" else "done")
         if mode == "tour":
             consts["EmitMode"] = "tour"   # hist is recorded, nothing printed by Emit; EmitEdge prints prefix + edge
@@ -291,6 +291,8 @@ def c12(ctx):
         # (empty / 1 byte, prefix, extension, last byte flipped): sessions set up, completed and verified for each class
         dss_gen("C12_msgs_n3", 3, 2500 if q else 0, maxbad=1, tset=(2,) if q else (1, 2, 3), msgs=ALL_MSGS,
                 kinds=("othermsg",)),
+        # DSS threshold stricter than the DKG's (keys generated with t-1): every arrival order, no signature before t partials
+        dss_gen("C12_gap_n4", 4, 0, maxbad=0, tset=(3, 4), gap=1),
         dss_gen("C12_tour_n4", 4, 1500 if q else 8000, mode="tour", maxbad=2),
         dss_gen("C12_walk_n7", 7, 150 if q else 2500, maxbad=3, simulate="num=%d" % (60 if q else 1200), L=13, msgs=ALL_MSGS),
         dss_traces,
